@@ -138,7 +138,7 @@ def build_cases(ctx):
                 ops = gen_history(rng, T, L, fmt, over)
                 if ops:
                     cases.append({"fmt": fmt, "T": T, "ops": ops, "handles": 2, "atom_indices": ai,
-                                  "stream": "overread" if over else "inrange"})
+                                  "stream": "overread" if over else "inrange", "cell": (i % 2 == 0)})
         if FORMATS[fmt][2]:
             for T in ([5] if quick else [1, 5]):
                 for L in ([1, 2] if quick else [1, 2, 3, 4]):
@@ -214,8 +214,8 @@ def run_cases(ctx, cases, tie=True):
         f: (VNAME[v] if v is not None else None) for f, v in explained.items()}
     # 2. the property: implementation vs abstract cursor on the in-range stream
     for i, (c, o) in enumerate(zip(cases, outs)):
-        ctx.count({"fmt": c["fmt"], "T": c["T"], "ops": c["ops"], "ai": c["atom_indices"]},
-                  nontrivial=nontrivial(c["ops"]), bucket="%s/%s" % (c["fmt"], c["stream"]))
+        ctx.count({"fmt": c["fmt"], "T": c["T"], "ops": c["ops"], "ai": c["atom_indices"], "cell": c.get("cell", True)},
+                  nontrivial=nontrivial(c["ops"]), bucket="%s/%s/%s" % (c["fmt"], c["stream"], "cell" if c.get("cell", True) else "nocell"))
         if c["stream"] != "inrange":
             continue
         if (i, SPEC) in badset:
@@ -262,7 +262,7 @@ def search(ctx, broken):
                 ops = gen_history(ctx.rng, T, ctx.rng.randint(2, 10), fmt, False)
                 if ops:
                     cases.append({"fmt": fmt, "T": T, "ops": ops, "handles": 2, "atom_indices": None,
-                                  "stream": "inrange"})
+                                  "stream": "inrange", "cell": bool(_ % 2)})
         for ops in exhaustive_histories(5, 3, fmt):
             cases.append({"fmt": fmt, "T": 5, "ops": ops, "handles": 2, "atom_indices": None, "stream": "inrange"})
     ctx.log("search: %d extra in-range histories on %s" % (len(cases), fmts))
